@@ -64,6 +64,7 @@ func replaySched(args []string) error {
 	var setup schedLine
 	var path string
 	structural := 0
+	stuck := false
 	err := vx.ReadLines(*in, func(line []byte) error {
 		var ln schedLine
 		if err := json.Unmarshal(line, &ln); err != nil {
@@ -75,7 +76,7 @@ func replaySched(args []string) error {
 			path, err = buildIndex(dict, dir, "sched.updog", "mem", ln.Rows)
 			return err
 		}
-		if ln.Tag != "sched" {
+		if ln.Tag != "sched" || stuck {
 			return nil
 		}
 		rep.Behaviours++
@@ -101,9 +102,25 @@ func replaySched(args []string) error {
 		// wait until every thread is at its first gate (or done)
 		atGate := map[int]bool{}
 		finished := map[int]bool{}
-		waitFor := func(t int) bool { // until t is gated again or done
+		for len(atGate)+len(finished) < n {
+			tt, done, ok := gates.Wait(10 * time.Second)
+			if !ok {
+				return fmt.Errorf("threads did not reach their first gate")
+			}
+			if done {
+				finished[tt] = true
+			} else {
+				atGate[tt] = true
+			}
+		}
+		faithful := true
+		hang := false
+		// gated replay of TLC's order; if the released thread neither reaches its next gate nor finishes
+		// (e.g. an implementation lets it wait for another thread's evaluation), the schedule is not
+		// replayable step by step: fall back to releasing whatever is gated until everything finished
+		waitShort := func(t int) bool {
 			for {
-				tt, done, ok := gates.Wait(10 * time.Second)
+				tt, done, ok := gates.Wait(1500 * time.Millisecond)
 				if !ok {
 					return false
 				}
@@ -118,53 +135,52 @@ func replaySched(args []string) error {
 				}
 			}
 		}
-		for len(atGate)+len(finished) < n {
-			tt, done, ok := gates.Wait(10 * time.Second)
-			if !ok {
-				return fmt.Errorf("threads did not reach their first gate")
-			}
-			if done {
-				finished[tt] = true
-			} else {
-				atGate[tt] = true
-			}
-		}
-		faithful := true
-		hang := false
 		for _, t := range ln.Order {
 			rep.Steps++
 			if !atGate[t] {
-				faithful = false // the code takes fewer cache calls than the model for this thread
+				faithful = false
 				continue
 			}
 			atGate[t] = false
 			gates.Release(t)
-			if !waitFor(t) {
-				hang = true
+			if !waitShort(t) {
+				faithful = false
 				break
 			}
 		}
-		// drain: the code takes more cache calls than the model (structure differs): round robin
-		for !hang {
+		// free run: release every gated thread until all have finished (20 s overall)
+		deadline := time.Now().Add(20 * time.Second)
+		for len(finished) < n {
 			progressed := false
 			for t := 1; t <= n; t++ {
 				if atGate[t] {
-					faithful = false
+					if len(finished) < n && faithful {
+						faithful = false // the code takes more cache calls than the model
+					}
 					atGate[t] = false
 					gates.Release(t)
-					if !waitFor(t) {
-						hang = true
-					}
 					progressed = true
 				}
 			}
-			if !progressed {
+			tt, done, ok := gates.Wait(500 * time.Millisecond)
+			if ok {
+				if done {
+					finished[tt] = true
+					atGate[tt] = false
+				} else {
+					atGate[tt] = true
+				}
+				progressed = true
+			}
+			if !progressed && time.Now().After(deadline) {
+				hang = true
 				break
 			}
 		}
 		if hang {
 			rep.Mismatch(map[string]any{"kind": "sched-hang", "order": ln.Order})
-			return nil // goroutines are leaked; the process ends soon
+			stuck = true // goroutines are leaked: no further schedules in this process
+			return nil
 		}
 		wg.Wait()
 		idx.Close()
@@ -251,6 +267,12 @@ func recordConcExec(args []string) error {
 			}
 			pool = append(pool, vx.Query{E: eg.tree(1+rng.Intn(4), 1+rng.Intn(4)), GB: gb})
 		}
+		// queries that fail (a column no row has, at various depths): errors must be errors for every caller
+		unk := &vx.Expr{Op: "eq", Col: 4, Val: 1}
+		pool = append(pool, vx.Query{E: unk}, vx.Query{E: &vx.Expr{Op: "not", E: unk}},
+			vx.Query{E: &vx.Expr{Op: "and", Es: []*vx.Expr{pool[0].E, {Op: "not", E: unk}}}},
+			vx.Query{E: &vx.Expr{Op: "or", Es: []*vx.Expr{{Op: "and", Es: []*vx.Expr{unk, pool[1].E}}, pool[2].E}}},
+			vx.Query{E: pool[3].E, GB: []int{4}})
 		ng := []int{2, 4, 8, 16}[rng.Intn(4)]
 		var mu sync.Mutex
 		var wg sync.WaitGroup
@@ -265,6 +287,9 @@ func recordConcExec(args []string) error {
 				lr := rand.New(rand.NewSource(seeds[g]))
 				for k := 0; k < *perG; k++ {
 					q := pool[lr.Intn(len(pool))]
+					if lr.Intn(3) == 0 {
+						q = pool[len(pool)-1-lr.Intn(5)] // the failing ones, often and at the same time
+					}
 					if lr.Intn(10) == 0 {
 						idx.GetSchema()
 					}
